@@ -325,6 +325,139 @@ type Labeled struct {
 	M    map[string]Label
 }
 
+// P<Kind> wrap one primitive each; they fold as the bare primitive and are
+// unfolded only through the user-defined primitive unfolders of PrimUnfolders
+// (gotype.Unfolders(func(*T, <kind>) error)): one generated unfolder per kind.
+// Tag marks a value that went through the callback.
+type PBool struct {
+	V   bool
+	Tag bool
+}
+
+func (p PBool) Fold(v structform.ExtVisitor) error { return v.OnBool(p.V) }
+
+type PInt struct {
+	V   int
+	Tag bool
+}
+
+func (p PInt) Fold(v structform.ExtVisitor) error { return v.OnInt(p.V) }
+
+type PInt8 struct {
+	V   int8
+	Tag bool
+}
+
+func (p PInt8) Fold(v structform.ExtVisitor) error { return v.OnInt8(p.V) }
+
+type PInt16 struct {
+	V   int16
+	Tag bool
+}
+
+func (p PInt16) Fold(v structform.ExtVisitor) error { return v.OnInt16(p.V) }
+
+type PInt32 struct {
+	V   int32
+	Tag bool
+}
+
+func (p PInt32) Fold(v structform.ExtVisitor) error { return v.OnInt32(p.V) }
+
+type PInt64 struct {
+	V   int64
+	Tag bool
+}
+
+func (p PInt64) Fold(v structform.ExtVisitor) error { return v.OnInt64(p.V) }
+
+type PUint struct {
+	V   uint
+	Tag bool
+}
+
+func (p PUint) Fold(v structform.ExtVisitor) error { return v.OnUint(p.V) }
+
+type PUint8 struct {
+	V   uint8
+	Tag bool
+}
+
+func (p PUint8) Fold(v structform.ExtVisitor) error { return v.OnUint8(p.V) }
+
+type PUint16 struct {
+	V   uint16
+	Tag bool
+}
+
+func (p PUint16) Fold(v structform.ExtVisitor) error { return v.OnUint16(p.V) }
+
+type PUint32 struct {
+	V   uint32
+	Tag bool
+}
+
+func (p PUint32) Fold(v structform.ExtVisitor) error { return v.OnUint32(p.V) }
+
+type PUint64 struct {
+	V   uint64
+	Tag bool
+}
+
+func (p PUint64) Fold(v structform.ExtVisitor) error { return v.OnUint64(p.V) }
+
+type PFloat32 struct {
+	V   float32
+	Tag bool
+}
+
+func (p PFloat32) Fold(v structform.ExtVisitor) error { return v.OnFloat32(p.V) }
+
+type PFloat64 struct {
+	V   float64
+	Tag bool
+}
+
+func (p PFloat64) Fold(v structform.ExtVisitor) error { return v.OnFloat64(p.V) }
+
+type Prims struct {
+	Bool    PBool
+	Int     PInt
+	Int8    PInt8
+	Int16   PInt16
+	Int32   PInt32
+	Int64   PInt64
+	Uint    PUint
+	Uint8   PUint8
+	Uint16  PUint16
+	Uint32  PUint32
+	Uint64  PUint64
+	Float32 PFloat32
+	Float64 PFloat64
+	PI      *PInt16
+	LU      []PUint8
+	MF      map[string]PFloat32
+}
+
+// PrimUnfolders registers a primitive user unfolder for every P<Kind> type.
+func PrimUnfolders() gotype.UnfoldOption {
+	return gotype.Unfolders(
+		func(to *PBool, v bool) error { to.V, to.Tag = v, true; return nil },
+		func(to *PInt, v int) error { to.V, to.Tag = v, true; return nil },
+		func(to *PInt8, v int8) error { to.V, to.Tag = v, true; return nil },
+		func(to *PInt16, v int16) error { to.V, to.Tag = v, true; return nil },
+		func(to *PInt32, v int32) error { to.V, to.Tag = v, true; return nil },
+		func(to *PInt64, v int64) error { to.V, to.Tag = v, true; return nil },
+		func(to *PUint, v uint) error { to.V, to.Tag = v, true; return nil },
+		func(to *PUint8, v uint8) error { to.V, to.Tag = v, true; return nil },
+		func(to *PUint16, v uint16) error { to.V, to.Tag = v, true; return nil },
+		func(to *PUint32, v uint32) error { to.V, to.Tag = v, true; return nil },
+		func(to *PUint64, v uint64) error { to.V, to.Tag = v, true; return nil },
+		func(to *PFloat32, v float32) error { to.V, to.Tag = v, true; return nil },
+		func(to *PFloat64, v float64) error { to.V, to.Tag = v, true; return nil },
+	)
+}
+
 // Empty has size zero: slices of it have elements without extent.
 type Empty struct{}
 
@@ -618,7 +751,7 @@ func UnfolderOpts(v int) []gotype.UnfoldOption {
 	if v == 0 {
 		return nil
 	}
-	return append(scoreOpts(v), TreeUnfolder(), LabelUnfolder())
+	return append(scoreOpts(v), TreeUnfolder(), LabelUnfolder(), PrimUnfolders())
 }
 
 // LabelUnfolder registers a primitive user unfolder for Label that keeps the
@@ -1360,6 +1493,22 @@ var Catalogue = []TypeEntry{
 			return Opts{A: OptInt{Set: c.Bool(), V: c.N(1000)}, B: OptInt{Set: true, V: c.N(1000)}}
 		})
 	})),
+	mk("Prims", false, func(c *simkit.Choices) Prims {
+		i := genI(c)
+		p := Prims{Bool: PBool{V: c.Bool()}, Int: PInt{V: int(i)}, Int8: PInt8{V: int8(i)}, Int16: PInt16{V: int16(i)}, Int32: PInt32{V: int32(i)}, Int64: PInt64{V: i},
+			Uint: PUint{V: uint(genU64(c))}, Uint8: PUint8{V: uint8(i)}, Uint16: PUint16{V: uint16(i)}, Uint32: PUint32{V: uint32(i)}, Uint64: PUint64{V: genU64(c)},
+			Float32: PFloat32{V: float32(c.N(1000)) / 8}, Float64: PFloat64{V: genF(c)}}
+		if c.Bool() {
+			p.PI = &PInt16{V: int16(c.N(65536))}
+		}
+		p.LU = genSlice(c, func(c *simkit.Choices) PUint8 { return PUint8{V: uint8(c.N(256))} })
+		p.MF = genMap(c, func(c *simkit.Choices) PFloat32 { return PFloat32{V: float32(c.N(100)) / 4} })
+		return p
+	}),
+	mk("PInt16", false, func(c *simkit.Choices) PInt16 { return PInt16{V: int16(c.N(65536))} }),
+	mk("[]PUint32", false, func(c *simkit.Choices) []PUint32 {
+		return genSlice(c, func(c *simkit.Choices) PUint32 { return PUint32{V: uint32(genI(c))} })
+	}),
 	mk("Label", true, func(c *simkit.Choices) Label { return Label{S: genStr(c)} }),
 	mk("Labeled", true, func(c *simkit.Choices) Labeled {
 		l := Labeled{Name: genStr(c), L: Label{S: genStr(c)}, LL: genSlice(c, func(c *simkit.Choices) Label { return Label{S: genStr(c)} }),
@@ -1409,7 +1558,7 @@ var families = map[string][]string{
 	"kv":     {"OrderedKV", "WithKV", "map[string]string", "Strs"},
 	"arrays": {"Triple", "Pair", "Quad", "[]interface{}-of-named-arrays", "[3]int", "ArrHolder", "[]interface{}"},
 	"bad":    {"BadField", "HasBad", "[]BadField", "Simple", "Inner"},
-	"label":  {"Label", "Labeled", "Strs"},
+	"label":  {"Label", "Labeled", "Strs", "Prims", "PInt16", "[]PUint32"},
 	"omit":   {"Opts", "[]Opts", "OmitIfc", "OmitAll", "LongNames", "Tagged"},
 	"empty":  {"[]Empty", "map[string]Empty", "Empties", "[]interface{}", "map[string]interface{}"},
 	"shape":  {"map[string]Shape", "[]Shape", "Shapes", "map[string]interface{}", "[]interface{}"},
@@ -1447,7 +1596,7 @@ func PickRelated(c *simkit.Choices, n int, forUnfold bool) []*TypeEntry {
 // it is (measured: 6000 generated values per type), which gives an exact
 // ground truth for complete matching documents.
 var inexactRoundTrip = map[string]bool{"interface{}": true, "[]interface{}": true, "map[string]interface{}": true, "Tagged": true, "Strs": true,
-	"[]map[string]interface{}": true, "OmitAll": true, "local-A.record": true, "Label": true, "Labeled": true}
+	"[]map[string]interface{}": true, "OmitAll": true, "local-A.record": true, "Label": true, "Labeled": true, "Prims": true, "PInt16": true, "[]PUint32": true}
 
 // ExactRoundTrip reports whether unfolding the fold of a value of this type
 // into a zero target must reproduce the value (nil and empty identified).
